@@ -727,6 +727,15 @@ class Executor:
                     if isnull:
                         self.raise_(st2, sink, "AttributeError", origin=f"None.{attr}")
                     else:
+                        ru = getattr(self.cur_contract, "reads_under", None) if self.depth == 0 else None
+                        if ru:
+                            for c_ in self.w.schema.mro(recv.ty.cls):
+                                lf = ru.get((c_, attr))
+                                if lf:
+                                    # check-then-act atomicity: this function's decision rests on the field, so it must read it inside the critical section
+                                    lock = st2.heap.get(recv, lf)
+                                    self.oblige(st2, "lock", f"read-of-{attr}-under-{lf}", HeapView(st2.heap, st2.held).holds(lock.v))
+                                    break
                         v = st2.heap.get(recv, attr)
                         if v.ty.kind == "ref":
                             st2.assume(z3.Or(v.v == 0, self.alloc_sel(st2.heap, v.v)))
@@ -1192,7 +1201,7 @@ class Executor:
         if cc is not None and self.depth == 0 and getattr(cc, "at_call", None) and c.target in cc.at_call:
             # publication order: what the contract of the function under check demands to hold at the moment it makes this call
             # (other threads observe the effect of the call - an event being set, an item being queued - before the function returns)
-            for label, f in cc.at_call[c.target](Args(self.inputs), HeapView(self.cur_old) if self.cur_old is not None else h, a, h):
+            for label, f in cc.at_call[c.target](Args(self.inputs), HeapView(self.cur_old) if self.cur_old is not None else h, a, h, st.locals):
                 self.oblige(st, "order", f"{c.qualname}:{label}", f, note=f"call at line {getattr(node, 'lineno', '?')}")
         for n, f in getattr(self, "_dyn_checks", []):
             self.oblige(st, "pre", f"{c.qualname}:argument-{n}-has-declared-type", f, note=f"call at line {getattr(node, 'lineno', '?')}")
